@@ -118,8 +118,12 @@ def tokeniser_table(prog):
     exits = {s for b in body for s in fn.succs(b) if s not in body}
     paths = A.region_paths(fn, conds, res, start, {header} | exits)
     states = [v["name"] for v in prog.adt(ZD + "State")["variants"]]
-    names = {n: l for l, n in fn.names.items()}
-    lc = names.get("line_continuation")
+    # the "inside parentheses" flag, by role: the only user bool with several definitions (it is loop-carried state)
+    cands = [l for l in range(len(fn.locals)) if fn.local_ty(l) == "bool" and fn.locals[l].get("user")
+             and len([d for d in fn.defs().get(l, []) if d[2] != "partial"]) >= 2]
+    if len(cands) != 1:
+        raise A.mir.AnchorMissing("tokenise_entry: expected one loop-carried bool flag, found %d" % len(cands))
+    lc = cands[0]
     cpath = "param1.[]"
     table = {}
     for st in states:
